@@ -24,7 +24,7 @@ SPEC = dict(
          'distinct_nontrivial counts distinct (width, bit order, polynomial) tables whose 256 entries were all judged - '
          'NOT the number of messages or calls (evaluations).',
     exhaustive={'quick': _EXH, 'thorough': _EXH},
-    require=['giant-message-at-once-vs-pieces', 'large-message-lengths', 'table-entry-msb-first', 'table-entry-lsb-first', 'table-reflection-relation',
+    require=['table-reinitialised-over-adversarial-contents', 'giant-message-at-once-vs-pieces', 'large-message-lengths', 'table-entry-msb-first', 'table-entry-lsb-first', 'table-reflection-relation',
              'crc-vs-bitwise-division-msb-first', 'crc-vs-bitwise-division-lsb-first', 'crc-vs-coefficient-long-division',
              'crc-reflection-relation',
              'crc-two-pieces-every-split', 'crc-three-pieces-every-split',
